@@ -145,7 +145,7 @@ def kpParseOp (toks : List String) : Option String := do
     | "real" => some (Content.ok, pkA, refR, refR)
     | "otherkp" => some (Content.ok, pkA, refR2, refR)
     | "foreign" => some (Content.ok, pkB, refR3, refR3)
-    | "trail" => some (Content.ok, pkA, refR, refR)    -- the remainder after the key package is not inspected
+    | "trail" => some (Content.trailing, pkA, refR, refR)
     | "nb64" => some (Content.notBase64, pkA, refR, refR)
     | "garbage" => some (Content.badMls, pkA, refR, refR)
     | "trunc" => some (Content.badMls, pkA, refR, refR)
@@ -162,10 +162,14 @@ def welcomeValidateOp (toks : List String) : Option String := do
 
 def welcomeCreateOp (toks : List String) : Option String := do
   let relays ← hexList (← field toks "relays")
-  let tags := welcomeCreate relays eventIdHex
-  let ok := validateWelcome stdEnv { kind := Generated.kindMlsWelcome, tags := tags }
-  pure ("kind=" ++ toString Generated.kindMlsWelcome ++ " tags=" ++ showTags [("$E", eventIdHex)] tags ++
-        " verdict=" ++ (if ok then "ok" else "reject"))
+  let content := if field toks "content" == some "trail" then Content.trailing else Content.ok
+  match inviteTags relays eventIdHex with
+  | none => pure "err create"
+  | some tags =>
+    let verdict := match processWelcome stdEnv { rumor := { kind := Generated.kindMlsWelcome, tags := tags }, content := content } with
+      | .ok => "ok" | .invalid => "reject" | .errWelcome => "err:welcome"
+    pure ("kind=" ++ toString Generated.kindMlsWelcome ++ " tags=" ++ showTags [("$E", eventIdHex)] tags ++
+          " verdict=" ++ verdict)
 
 def hexGidOp (toks : List String) : Option String := do
   let tags ← parseTags [] (← field toks "tags")
